@@ -429,6 +429,75 @@ let rec handle (pl : string) : string =
     (match esp_decode (bytes_of_hex bs) (buf_of old) with
      | Some b -> Printf.sprintf "dbuf=%s;class=esd" (buf_s b)
      | None -> "dbuf=FUEL")
+  | ["e1x"; rev2; pool; script] ->
+    let rev2b = rev2 = "1" in
+    let pool = Array.of_list (List.map bytes_of_hex (String.split_on_char '/' pool)) in
+    let toks = String.split_on_char ',' script in
+    let h = ref 2166136261 in
+    let fnv_byte b = h := ((!h lxor b) * 16777619) land 0xffffffff in
+    let fnv_string s = String.iter (fun c -> fnv_byte (Char.code c)) s in
+    let cid = List.init 16 (fun z -> n_of_int (z + 1)) in
+    let str s = List.init (String.length s) (fun i -> n_of_int (Char.code s.[i])) in
+    let name = ref (str "entry") in
+    let universe = n_of_int 9 in
+    let m = ref [] in                       (* sender settings: universe -> next sequence *)
+    let st = ref { rx_src = None; rx_active = N0; rx_buf = None } in
+    let trace = Buffer.create 64 in
+    let all = ref true and bad = ref "" in
+    let cur () = (match tx_lookup universe !m with Some s -> int_of_n s | None -> 0) in
+    let ensure () = m := tx_touch universe !m in
+    let advance () = m := tx_update universe (n_of_int ((cur () + 1) land 255)) !m in
+    List.iter (fun tk ->
+      if tk <> "" then begin
+        let c = tk.[0] in
+        if c = 'n' then begin name := str "renamed"; ensure () end
+        else if c = 'x' then ensure ()
+        else begin
+          let us = (try String.index tk '_' with Not_found -> String.length tk) in
+          let k = if us > 1 then ios (String.sub tk 1 (us - 1)) else 0 in
+          let arg = if us < String.length tk then ios (String.sub tk (us + 1) (String.length tk - us - 1)) else 0 in
+          let pkt = (
+            if c = 'z' then begin
+              if rev2b then None else begin
+                let tracked = tx_lookup universe !m <> None in
+                let q = if tracked then cur () else 0 in
+                let p = e131_build_opt false cid !name (n_of_int 100) (n_of_int q) universe (n_of_int 64) [] in
+                if tracked then advance ();
+                (match p with Some p -> Some (p, [], false) | None -> None) end end
+            else if k >= Array.length pool then None
+            else begin
+              let f = pool.(k) in
+              ensure ();
+              let q, prio, opt, adv = (match c with
+                | 's' -> cur (), 100, 0, true
+                | 'p' -> cur (), arg, 0, true
+                | 'v' -> cur (), 100, (if rev2b then 0 else 128), true
+                | 'o' -> (cur () + arg + 2560) land 255, 100, 0, (arg = 0)
+                | _ -> -1, 0, 0, false) in
+              if q < 0 then None else begin
+                let p = e131_build_opt rev2b cid !name (n_of_int prio) (n_of_int q) universe (n_of_int opt) f in
+                if adv then advance ();
+                (match p with Some p -> Some (p, f, true) | None -> None) end end) in
+          match pkt with
+          | None -> ()
+          | Some (p, f, is_data) ->
+            let before = !st in
+            let ran = (match e131_rx p universe true !st with
+              | SOk (st', ran) -> st := st'; ran
+              | SOob -> bad := "OOB"; false
+              | SUnmodelled -> bad := "UNMODELLED"; false) in
+            (* the rules: what must have happened *)
+            let ok = if ran then is_data && (!st).rx_buf = Some f
+                     else (ignore before; true) in
+            if not ok then all := false;
+            fnv_string ((if ran then "1:" else "0:") ^ buf_s (!st).rx_buf);
+            List.iter (fun x -> fnv_byte (int_of_n x)) p;
+            Buffer.add_char trace (if ok then (if ran then '1' else '.') else '0')
+        end
+      end) toks;
+    if !bad <> "" then "t=" ^ !bad ^ ";class=e1x:" ^ !bad
+    else Printf.sprintf "t=%s;h=%08x;spec=%s;class=e1x:rev%s" (Buffer.contents trace) !h (bool01 !all)
+           (if rev2b then "2" else "3")
   | ["enc"; cap; fr] ->
     let f = bytes_of_hex fr in
     let cls = frame_class (List.map int_of_n f) in
